@@ -4,15 +4,20 @@
      reg    the registered entries with their masks, in registration order
             (no P-level observation depends on the order; it is kept so the
             implementation-shaped list of WaiterImpl can be compared with it)
-     token  per channel-backed entry: 1 iff the channel holds a token
+     chanOf per channel-backed entry: the channel it sends to.  Channels are named after
+            the entry that allocated them (NewChannelEntry(nil)); an unregistered entry may
+            be re-created at any time on ANY existing channel (NewChannelEntry(ch)), so
+            several entries can share one channel
+     token  per channel: 1 iff the channel holds a token
      calls  per callback entry: number of callback invocations so far
    Entries are strings, masks are sets of event names ("in", "out", ...).
    Contract (callers' obligation, therefore guards, not behaviour): an entry is
    registered only while unregistered and unregistered only while registered. *)
 EXTENDS Integers, Sequences, FiniteSets, TLC
 CONSTANTS CbEntries, ChEntries
-VARIABLES reg, token, calls
-pvars == <<reg, token, calls>>
+VARIABLES reg, token, calls, chanOf
+pvars == <<reg, token, calls, chanOf>>
+Chans == ChEntries
 Entries == CbEntries \cup ChEntries
 
 IsReg(e)   == \E i \in DOMAIN reg : reg[i].e = e
@@ -22,34 +27,43 @@ MaskOf(e)  == (CHOOSE r \in {reg[i] : i \in DOMAIN reg} : r.e = e).m
 Hit(m)     == {reg[i].e : i \in {j \in DOMAIN reg : reg[j].m \cap m # {}}}
 
 PInit == /\ reg = <<>>
-         /\ token = [e \in ChEntries |-> 0]
+         /\ token = [c \in Chans |-> 0]
          /\ calls = [e \in CbEntries |-> 0]
+         /\ chanOf = [e \in ChEntries |-> e]
 
 \* only e's membership changes: the others are neither lost nor duplicated
 Register(e, m) == /\ ~IsReg(e)
                   /\ reg' = Append(reg, [e |-> e, m |-> m])
-                  /\ UNCHANGED <<token, calls>>
+                  /\ UNCHANGED <<token, calls, chanOf>>
 Unregister(e)  == /\ IsReg(e)
                   /\ reg' = SelectSeq(reg, LAMBDA r : r.e # e)
-                  /\ UNCHANGED <<token, calls>>
+                  /\ UNCHANGED <<token, calls, chanOf>>
+
+\* NewChannelEntry(ch) on an existing channel: e now sends to c.  Creating an entry is not a
+\* receive: a token already in the channel (a notification nobody has taken yet) stays there.
+NewEntry(e, c) == /\ e \in ChEntries /\ c \in Chans /\ ~IsReg(e)
+                  /\ chanOf' = [chanOf EXCEPT ![e] = c]
+                  /\ UNCHANGED <<reg, token, calls>>
 
 \* every entry of S gets exactly one callback: a callback entry counts it, a
 \* channel entry holds a token afterwards (it stays 1 until taken)
 Deliver(S) == /\ calls' = [e \in CbEntries |-> calls[e] + (IF e \in S THEN 1 ELSE 0)]
-              /\ token' = [e \in ChEntries |-> IF e \in S THEN 1 ELSE token[e]]
+              /\ token' = [c \in Chans |-> IF \E e \in S \cap ChEntries : chanOf[e] = c THEN 1 ELSE token[c]]
+              /\ UNCHANGED chanOf
 
 \* exactly the entries registered at this moment with an intersecting mask
 Notify(m) == Deliver(Hit(m)) /\ UNCHANGED reg
 
 \* the waiter's non-blocking receive: succeeds iff a token is there, consumes it
-Take(e, ok) == /\ e \in ChEntries
-               /\ ok = (token[e] = 1)
-               /\ token' = [token EXCEPT ![e] = 0]
-               /\ UNCHANGED <<reg, calls>>
+Take(c, ok) == /\ c \in Chans
+               /\ ok = (token[c] = 1)
+               /\ token' = [token EXCEPT ![c] = 0]
+               /\ UNCHANGED <<reg, calls, chanOf>>
 
 NoDup == \A i, j \in DOMAIN reg : reg[i].e = reg[j].e => i = j
 PTypeOK == /\ \A i \in DOMAIN reg : reg[i].e \in Entries
-           /\ token \in [ChEntries -> {0, 1}]
+           /\ token \in [Chans -> {0, 1}]
+           /\ chanOf \in [ChEntries -> Chans]
            /\ calls \in [CbEntries -> Nat]
            /\ NoDup
 ====
